@@ -150,8 +150,6 @@ var reproducers = []struct{ sig, src string }{
 	{"const-index-eq-len-accepted", "package main\n\nfunc main() {\n\tvar a [3]int\n\t_ = a[3]\n}\n"},
 	{"const-shift-count-over-1074", "package main\n\nfunc main() {\n\t_ = 4 >> 6400\n}\n"},
 	{"const-zero-shift-count-512", "package main\n\nconst c = 0 << 600\n\nfunc main() {\n\t_ = c\n}\n"},
-	{"labeled-branch-not-implemented", "package main\n\nfunc main() {\nouter:\n\tfor i := 0; i < 3; i++ {\n\t\tfor j := 0; j < 3; j++ {\n\t\t\tcontinue outer\n\t\t}\n\t}\n}\n"},
-	{"labeled-branch-not-implemented", "package main\n\nfunc main() {\n\tvar m map[string]int\nouter:\n\tfor k := range m {\n\t\tfor range m {\n\t\t\t_ = k\n\t\t\tbreak outer\n\t\t}\n\t}\n}\n"},
 }
 
 // regressions: inputs of the defects repaired by fix commits of this work
@@ -159,6 +157,8 @@ var reproducers = []struct{ sig, src string }{
 // program on every run, in this order (the second one is only rejected when
 // the first one has polluted the universe constants).
 var regressions = []string{
+	"package main\n\nfunc main() {\nouter:\n\tfor i := 0; i < 3; i++ {\n\t\tfor j := 0; j < 3; j++ {\n\t\t\tcontinue outer\n\t\t}\n\t}\n}\n", // labeled-branch-not-implemented (repaired)
+	"package main\n\nfunc main() {\n\tvar m map[string]int\nouter:\n\tfor k := range m {\n\t\tfor range m {\n\t\t\t_ = k\n\t\t\tbreak outer\n\t\t}\n\t}\n}\n", // labeled-branch-not-implemented (repaired)
 	"package main\n\nfunc main() {\n\tvar x uint8 = 0.5 + 1.0\n\t_ = x\n}\n", // float-const-to-unsigned-not-integral (repaired by the consts package)
 	"package main\n\nfunc main() {\n\t_ = float64(3) % 2\n}\n", // const-conversion-keeps-int-repr (repaired by the consts package)
 	"package main\n\nfunc main() {\n\tconst c int = 2.0\n\t_ = c % 3\n}\n", // typed-const-keeps-untyped-repr (repaired by the consts package)
